@@ -529,6 +529,18 @@ fn c10_scenario<V: VirtualFileSystem>(v: &V, backend: &str, root: &str, l: &str,
             if f0 != v0 {
                 bad("follow(false)-changes-nothing→changed", format!("{:?}", f0));
             }
+            // "exactly once" also for a copy of an entry that is already following (entries are Clone and are
+            // handed around by value)
+            let followed = e.clone().follow(true);
+            let copy = followed.clone();
+            if entry_view(&copy) != f1 {
+                bad("clone-of-a-followed-entry-is-the-same-entry→differs", format!("{:?} vs {:?}", entry_view(&copy), f1));
+            }
+            let c2 = entry_view(&copy.clone().follow(true));
+            let c3 = entry_view(&copy.upcast().follow(true));
+            if c2 != f1 || c3 != f1 {
+                bad("follow-swaps-exactly-once→swapped-again(after clone)", format!("{:?} / {:?}", c2, c3));
+            }
         },
         Err(e) => bad("entry(link)→Err", e.to_string()),
     }
